@@ -918,6 +918,7 @@ def _seed(tree, cls, chain):
                 env[name] = env[_self_attr(vals[0])]
         for n, d in _nested_defs(fn).items():
             env[n] = ('fn', d, False)
+            funcs[n] = ('fn', d, False)          # (static resolution of helper calls: `reaches`, `sites`)
     return funcs, env, creators
 
 
@@ -938,6 +939,9 @@ def _bind_own_params(fn, env, defaults_ok):
 
 def _run(dom, funcs, env, fn, defaults_ok=False):
     """execute the body of `fn` → [(signal, state)]"""
+    funcs = dict(funcs)
+    for n, d in _nested_defs(fn).items():
+        funcs[n] = ('fn', d, False)
     m = _Machine(dom, funcs)
     st = _St()
     st.env = dict(env)
@@ -1057,6 +1061,9 @@ def _per_item_loop(m, fn, pred):
 
 def _producer_facts(funcs, env, prod, abort_names, notes):
     """→ (stops, rechecks, queue names the producer puts into)"""
+    funcs = dict(funcs)
+    for n, d in _nested_defs(prod).items():
+        funcs[n] = ('fn', d, False)
     probe = _Machine(_ProducerDom(abort_names, None), funcs)
     puts = probe.sites(prod, _ProducerDom.is_put)
     if len(puts) != 1:
@@ -1390,6 +1397,24 @@ def _transfers_under_slot(cls, cms, notes):
         memo[id(fn)] = r
         return r
 
+    def passed_into_slot(fn, node):
+        """`self.helper(…, self.backend.op, …)`: the helper uses that parameter only inside its slot `with`"""
+        for c in _body_walk(fn):
+            if not (isinstance(c, ast.Call) and _self_attr(c.func) and any(a is node for a in c.args)):
+                continue
+            h = [f for f, p in funcs if p is None and f.name == c.func.attr]
+            if not h or any(isinstance(a, ast.Starred) for a in c.args[:[i for i, a in enumerate(c.args) if a is node][0] + 1]):
+                return False
+            h = h[0]
+            pos = [p.arg for p in h.args.posonlyargs + h.args.args][1:]
+            i = [i for i, a in enumerate(c.args) if a is node][0]
+            if i >= len(pos):
+                return False
+            hm = inside_map(h)
+            uses = [x for x in _body_walk(h) if isinstance(x, ast.Name) and x.id == pos[i]]
+            return bool(uses) and all(isinstance(x.ctx, ast.Load) and hm.get(id(x), False) for x in uses)
+        return False
+
     seen_ops = set()
     ok = True
     for fn, _ in funcs:
@@ -1413,6 +1438,8 @@ def _transfers_under_slot(cls, cms, notes):
                 if uses and len(binds) == 1 and all(im.get(id(x), False) for x in uses):
                     continue
             if always_under_slot(fn):
+                continue
+            if passed_into_slot(fn, n):
                 continue
             ok = False
             notes[f'sched.under_slot.{fn.name}'] = f'self.backend.{n.attr} is used outside `with <slot manager>`'
@@ -1732,6 +1759,9 @@ def _flock_facts(funcs, env, creators, writer, notes):
     """→ (flockShapeRecognised, flockDelAtZero)"""
     # the lock table = the dict of the enclosing scope that receives a new Lock; the count table = the one incremented / set to a number
     lt = rc = None
+    funcs = dict(funcs)
+    for n, d in _nested_defs(writer).items():
+        funcs[n] = ('fn', d, False)
     probe = _Machine(_Dom(), funcs)
     scope = [writer] + [fv[1] for n in ast.walk(writer) if isinstance(n, ast.Call) for fv in [probe.static_callee(n.func)] if fv is not None]
     dicts = {n for n, v in env.items() if isinstance(v, tuple) and v[0] == 'obj' and v[1] == 'dict' and v[2] == n}
@@ -2053,7 +2083,11 @@ def _bool_term(node, env, nested, queues, futures, depth=0):
             return 'queueEmpty'
         if o is not None and o[1] == 'future' and o[2] in futures and node.func.attr == 'done':
             return 'producerDone'
-    if isinstance(node, ast.Call) and isinstance(node.func, ast.Name) and node.func.id in nested and not node.args and not node.keywords:
+    if isinstance(node, ast.Call) and isinstance(node.func, ast.Name) and isinstance(nested.get(node.func.id), ast.Lambda) \
+            and not node.args and not node.keywords:
+        return _bool_term(nested[node.func.id].body, env, nested, queues, futures, depth + 1)
+    if isinstance(node, ast.Call) and isinstance(node.func, ast.Name) and isinstance(nested.get(node.func.id), _FUNCS) \
+            and not node.args and not node.keywords:
         fn = nested[node.func.id]
         body = [st for st in fn.body if not (isinstance(st, ast.Expr) and isinstance(st.value, ast.Constant))]
         if isinstance(fn, ast.FunctionDef) and len(body) == 1 and isinstance(body[0], ast.Return) and body[0].value is not None \
@@ -2151,6 +2185,24 @@ def _snapshot_roles(snap, env, creators):
     return prods, workers, gathers
 
 
+def _flatten(stmts, nested, depth=0):
+    """statement list with the calls `helper()` / `await helper()` of argument-less nested helpers (no `return` inside) replaced by
+    the helper's body — so that a handler whose steps were moved into a small function reads like the original"""
+    out = []
+    for st in stmts:
+        v = st.value if isinstance(st, ast.Expr) else None
+        if isinstance(v, ast.Await):
+            v = v.value
+        if isinstance(v, ast.Call) and isinstance(v.func, ast.Name) and v.func.id in nested and not v.args and not v.keywords and depth < 3:
+            fn = nested[v.func.id]
+            if not _is_generator(fn) and not any(isinstance(n, ast.Return) for n in _body_walk(fn)) and not _params(fn) \
+                    and isinstance(fn, ast.AsyncFunctionDef) == isinstance(st.value, ast.Await):
+                out.extend(_flatten(fn.body, nested, depth + 1))
+                continue
+        out.append(st)
+    return out
+
+
 def _abort_protocol(snap, env, gathers, producer_future):
     """try: await gather(workers) / except <everything>: <flag>.set(); raise / finally: await <producer future>  → flag name | None"""
     result = []
@@ -2188,20 +2240,21 @@ def _abort_protocol(snap, env, gathers, producer_future):
     if not (h.type is None or ast.unparse(h.type) == 'BaseException'):
         return None
     flag = None
-    for st in h.body:
+    hbody = _flatten(h.body, _nested_defs(snap))
+    for st in hbody:
         if isinstance(st, ast.Expr) and isinstance(st.value, ast.Call) and isinstance(st.value.func, ast.Attribute) and st.value.func.attr == 'set' \
                 and not st.value.args and isinstance(st.value.func.value, ast.Name):
             v = env.get(st.value.func.value.id)
             if isinstance(v, tuple) and v[0] == 'obj' and v[1] == 'event':
                 flag = v[2]
-    last = h.body[-1]
+    last = hbody[-1]
     reraises = isinstance(last, ast.Raise) and (last.exc is None or (isinstance(last.exc, ast.Name) and last.exc.id == h.name)) and last.cause is None
-    escapes = [n for st in h.body[:-1] for n in _walk_local(st) if isinstance(n, (ast.Return, ast.Raise, ast.Break, ast.Continue))]
+    escapes = [n for st in hbody[:-1] for n in _walk_local(st) if isinstance(n, (ast.Return, ast.Raise, ast.Break, ast.Continue))]
     if flag is None or not reraises or escapes:
         return None
     awaited = False
     for fb in finals:
-        for st in fb:
+        for st in _flatten(fb, _nested_defs(snap)):
             if isinstance(st, ast.Expr) and isinstance(st.value, ast.Await) and isinstance(st.value.value, ast.Name):
                 v = env.get(st.value.value.id)
                 if isinstance(v, tuple) and v[0] == 'obj' and v[1] == 'future' and v[2] == producer_future:
@@ -2254,7 +2307,8 @@ def _joins_loaders_on_failure(rest, env, lexec):
             if any(ast.unparse(p.type) in ('BaseException', 'Exception') if p.type is not None else True for p in n.handlers[:i]):
                 continue
             sh = wt = rs = None
-            for k, st in enumerate(h.body):
+            hbody = _flatten(h.body, _nested_defs(rest))
+            for k, st in enumerate(hbody):
                 v = st.value if isinstance(st, ast.Expr) else None
                 if isinstance(v, ast.Call) and _call_name(v) == 'shutdown' and isinstance(v.func, ast.Attribute) and isinstance(v.func.value, ast.Name):
                     o = env.get(v.func.value.id)
@@ -2268,9 +2322,10 @@ def _joins_loaders_on_failure(rest, env, lexec):
                     kw = {x.arg: const(x.value) for x in c.keywords}
                     if (_call_name(c) == 'gather' and kw.get('return_exceptions') is True) or (_call_name(c) == 'wait' and 'timeout' not in kw and len(c.args) == 1):
                         wt = k if wt is None else wt
-                if isinstance(st, ast.Raise) and st.exc is None and k == len(h.body) - 1:
+                if isinstance(st, ast.Raise) and k == len(hbody) - 1 and st.cause is None \
+                        and (st.exc is None or (isinstance(st.exc, ast.Name) and st.exc.id == h.name)):
                     rs = k
-            early = [x for st in h.body[:-1] for x in _walk_local(st) if isinstance(x, (ast.Return, ast.Raise, ast.Break, ast.Continue))]
+            early = [x for st in hbody[:-1] for x in _walk_local(st) if isinstance(x, (ast.Return, ast.Raise, ast.Break, ast.Continue))]
             if None not in (sh, wt, rs) and sh < wt < rs and not early:
                 return True
     return False
@@ -2498,6 +2553,11 @@ def section(ctx):
                         wenv.pop(nm, None)
                     nested = dict(_nested_defs(snap))
                     nested.update(_nested_defs(worker))
+                    for f in (snap, worker):         # argument-less lambdas bound once
+                        for nm, vals in _bound_names(f).items():
+                            if len(vals) == 1 and isinstance(vals[0], ast.Lambda) and not _params(vals[0]) and nm not in nested:
+                                nested[nm] = vals[0]
+                                wenv.pop(nm, None)
                     term = _bool_term(lt[0], wenv, nested, queues, {prod[1]})
                     if lt[1]:
                         term = '(!' + term + ')'
